@@ -97,6 +97,23 @@ Variable gunzip : B -> gzres.            (* gzip.open(...).read() *)
 
 Notation prog := (prog B).
 
+(* open(target, "wb" | "xb"); write; close.  Every OSError becomes DataAccessError. *)
+Definition write_it (target : path) (data : B) (ow : bool) : prog (outcome (resval B)) :=
+  Do (COpen target (if ow then MW else MX)) (fun r =>
+  match r with
+  | RErr _ => Ret AccessErr
+  | _ =>
+    Do (CWrite target data) (fun r =>
+    match r with
+    | RErr _ => Do (CClose target) (fun _ => Ret AccessErr)
+    | _ => Do (CClose target) (fun r =>
+           match r with RErr _ => Ret AccessErr | _ => Ret (Ok VUnit) end)
+    end)
+  end).
+
+(* os.makedirs(parent); then the form NOT being written (plain vs .gz) must
+   not survive (_drop_other_form): if other.is_file(): FileExistsError when
+   overwrite is False, else other.unlink(); then open / write / close. *)
 Definition store_at (c : cfg) (fp : path) (buf mime : list N) (ow : bool)
   : prog (outcome (resval B)) :=
   Do (CMakedirs (parent fp)) (fun r =>
@@ -105,17 +122,16 @@ Definition store_at (c : cfg) (fp : path) (buf mime : list N) (ow : bool)
   | _ =>
     let zip := gzip c && negb (exempt mime) in
     let target := if zip then with_gz fp else fp in
+    let other := if zip then fp else with_gz fp in
     let data := if zip then gz (level c) buf else plain buf in
-    Do (COpen target (if ow then MW else MX)) (fun r =>
+    Do (CIsFile other) (fun r =>
     match r with
     | RErr _ => Ret AccessErr
-    | _ =>
-      Do (CWrite target data) (fun r =>
-      match r with
-      | RErr _ => Do (CClose target) (fun _ => Ret AccessErr)
-      | _ => Do (CClose target) (fun r =>
-             match r with RErr _ => Ret AccessErr | _ => Ret (Ok VUnit) end)
-      end)
+    | RBool true =>
+        if ow then Do (CUnlink other) (fun r =>
+                     match r with RErr _ => Ret AccessErr | _ => write_it target data ow end)
+        else Ret AccessErr                       (* FileExistsError *)
+    | _ => write_it target data ow
     end)
   end).
 
